@@ -24,6 +24,40 @@ CLAIMS = {
              "(only used to build the operand objects).",
         technique="Lean 4 proof (decide +kernel table + structural case lemma) over translator-generated tables; exhaustive differential correspondence",
     ),
+    "C01": dict(
+        text="Theorems for all port models / micro-op lists / kernels: the loop of average_port_pressure equals the closed-form "
+             "uniform split, which is exactly feasible (non-negative, supported, exact total, Hall condition for every port set); "
+             "any sequence of guarded balancing moves (INC from the source) keeps the vector feasible up to INC/2 per micro-op with "
+             "exact total; kernel totals are the column sums over lines with throughput != skip value. Tie: translator (INC, digits, "
+             "filter), K1 correspondence of average_port_pressure/get_throughput_sum, K2 trace refinement of the real balancer "
+             "(every recorded mutation replayed as a guarded move), oracle Spec.checkFeasible on uniform/once/twice states.",
+        design="5/C01",
+        note=COMMON_NOTE + "The balancer's float-noise dependent control flow is modelled relationally. Known finding: state after the "
+             "second assign_optimal_throughput call (D12). Modelled not verified: Python floats/round.",
+        technique="Lean 4 proof (induction over micro-op lists and move sequences) + trace-refinement correspondence",
+    ),
+    "C02": dict(
+        text="Theorems for all kernels: per-instruction feasibility (C01) makes the kernel totals a feasible schedule of all micro-ops "
+             "(kernel_feasible), and a feasible schedule never undercuts max_S confined(S)/|S| by more than its slack "
+             "(lowerBound_le_max, pigeonhole). The 0.15 clause is decided exhaustively on the property's 5355-kernel family by "
+             "executing the real code against the Lean Spec optimum; 'optimised <= uniform' by the same family and random kernels.",
+        design="5/C02",
+        note=COMMON_NOTE + "Optimum = max_S confined(S)/|S| as the property defines it (LP duality not proved). 'optimised <= uniform' "
+             "on rounded sums is checked on executions, proved only for exact sums (transfer_max_le). Known finding: second pass on "
+             "multi-micro-op kernels outside the family.",
+        technique="Lean 4 proof (feasibility algebra, pigeonhole) + bounded-exhaustive execution of the real code against the Lean Spec",
+    ),
+    "C15": dict(
+        text="Per shipped model a kernel-decided theorem (regenerated from the YAML on every run) that every micro-op list, "
+             "throughput/latency value and load/store table entry is well-formed, lifted by wf_costable/shipped_costable (for all port "
+             "lists and raw lists) to: costing never raises and returns the exactly feasible uniform split; counts_spec for --db-check. "
+             "Tie: raw YAML vs loaded MachineModel entry by entry, every distinct list through the real average_port_pressure vs the "
+             "Lean model, --db-check counters vs sanityCounts vs a raw count.",
+        design="5/C15",
+        note=COMMON_NOTE + "Modelled not verified: ruamel.yaml. The CLI path (one synthesised instruction per entry) is exercised by C07's "
+             "self-match sweep. bdw/csx/skx are empty in this sandbox and skipped.",
+        technique="Lean 4 proof (decide +kernel tables from YAML + general costing lemma) + exhaustive correspondence",
+    ),
 }
 
 REASON_TODO = "no theorem + checked tie built yet in this round; planned per DESIGN.md section 5 (not claimed until both exist)"
